@@ -136,6 +136,24 @@ def decode_words(call, words, n, k, res, one_d_every=8):
             out.append((w, C.tensor_to_ints(y.unsqueeze(0))[0], "1d", None))
         except Exception as e:  # noqa: BLE001
             out.append((w, None, "1d", f"{type(e).__name__}: {str(e)[:160]}"))
+    # the same hard decisions presented in other dtypes (every 16th word, rotating through the dtypes): a decoder may decline a dtype, it may
+    # not decode the word differently
+    dts = ["uint8", "int64", "bool", "float64", "int32", "float16"]
+    sub = words[::16]
+    for j in range(0, len(sub), B):
+        ws = sub[j:j + B]
+        dt = dts[(j // B) % len(dts)]
+        x = torch.tensor([gf2.bits(w, n) for w in ws], dtype=torch.float32).to(getattr(torch, dt))
+        try:
+            y = call(x)
+            res.transitions += 1
+            y = y[0] if isinstance(y, tuple) else y
+            if tuple(y.shape) != (len(ws), k):
+                out += [(w, None, f"{dt}", f"output shape {tuple(y.shape)} for input {tuple(x.shape)}") for w in ws]
+                continue
+            out += [(w, m, f"{dt}", None) for w, m in zip(ws, C.tensor_to_ints(y.to(torch.float32)))]
+        except Exception:  # noqa: BLE001
+            res.rejected += 1
     return out
 
 
